@@ -209,6 +209,9 @@ func runC17(r *Runner, g *Gen, tier string) string {
 		}
 		r.Do(L(items...), true, "world.tagged-self-reference")
 	}
+	for _, k := range []string{"struct", "map", "arr"} {
+		r.Do(L(A("latereg"), A(k)), true, "latereg")
+	}
 	n := scale(tier, 1200, 150000)
 	for i := 0; i < n; i++ {
 		items := []*Sexp{A("world")}
